@@ -10,6 +10,7 @@ Theorems about the transcription of `TreeRewriter.RewriteTree` (as configured by
 traversal exact use the C28 theorems (`list_upward`, `list_child_sound`) and therefore carry the
 C28 hypotheses on the glob oracle (`ValidLists`: validated patterns, law G1).
 -/
+set_option linter.unusedSimpArgs false
 namespace Restic.Props.C27
 open Restic.Model.Filter Restic.Model.Select Restic.Proofs.C27 Restic.Proofs.Select Restic.Props.C28
 
@@ -172,6 +173,175 @@ theorem runRewrite_summary (glob : Glob) (nEx nIn : Nat) (v : Bool) (ex inc : Li
             unfold specSummaryOK
             simp only [Bool.and_eq_true, decide_eq_true_eq]
             exact ⟨this.1, by rw [this.2]; rfl⟩
+
+
+/-- Directories under include patterns, exactly: a directory is kept iff it is an original
+    directory that matches a pattern or leads to a kept entry ("the directories leading to them"). -/
+theorem rewrite_include_dirs (glob : Glob) (lists : List PatList) (hv : ValidLists glob lists)
+    (root : List Node) (e : Entry) (hd : e.isDir = true) :
+    e ∈ entries [] (includeTree glob lists root).1 ↔
+      e ∈ entries [] root ∧
+        (inSelectDir glob lists e.path = true ∨ ∃ e' ∈ entries [] (includeTree glob lists root).1, Below e e') := by
+  constructor
+  · intro h
+    refine ⟨(rw_list_sub _ _ [] root _ e h).1, ?_⟩
+    exact rw_list_dir_reason _ _ [] root _ e h hd
+  · rintro ⟨h1, h2 | ⟨e', he', hlen, htake⟩⟩
+    · -- matched: kept even if it ends up empty
+      unfold includeTree
+      apply rw_list_sup' _ _ [] root _ e (Or.inr (Or.inr h2)) h1
+      have hm : inSelect glob lists e.path false = true := by
+        rw [inSelect_file_eq]; rw [inSelectDir_eq] at h2; exact h2
+      refine ⟨?_, ?_⟩
+      · show inSelect glob lists e.path e.isDir = true
+        rw [hd, inSelect_dir_eq]
+        rw [inSelectDir_eq] at h2
+        simp only [List.any_eq_true, Bool.or_eq_true] at h2 ⊢
+        rcases h2 with ⟨l, hl, hm'⟩
+        exact ⟨l, hl, Or.inl hm'⟩
+      · intro k hk1 hk2
+        have hne : e.path.take k ≠ [] := by
+          intro h
+          have hl : (e.path.take k).length = k := by rw [List.length_take]; omega
+          rw [h] at hl; simp at hl; omega
+        show inSelect glob lists (e.path.take k) true = true
+        apply inSelect_child_sound glob lists hv (e.path.take k) (e.path.drop k) hne
+        rw [List.take_append_drop]; exact hm
+    · -- an entry below it is kept, hence so is every directory above that entry
+      have hpos : 0 < e.path.length := by
+        rcases entries_prefix [] root e h1 with ⟨n, rest, hr⟩
+        rw [hr]; simp
+      have := entries_ancestor [] _ e' he' e.path.length (by simpa using hpos) hlen
+      rw [htake] at this
+      rw [entries_dir_shape [] root e h1 hd]
+      exact this
+
+
+
+theorem ancestors_all (p : List Str) (f : List Str → Bool) :
+    (ancestors p).all f = true ↔ ∀ k, 0 < k → k < p.length → f (p.take k) = true := by
+  unfold ancestors
+  simp only [List.all_eq_true, List.mem_filterMap, List.mem_range]
+  constructor
+  · intro h k hk1 hk2
+    apply h (p.take k)
+    refine ⟨k, hk2, ?_⟩
+    rw [if_neg (by omega)]
+  · rintro h a ⟨k, hk, hka⟩
+    by_cases h0 : k = 0
+    · rw [if_pos h0] at hka; cases hka
+    · rw [if_neg h0] at hka
+      simp only [Option.some.injEq] at hka
+      rw [← hka]
+      exact h k (by omega) hk
+
+/-- the tree computed for exclude patterns satisfies the executable statement of C27 -/
+theorem excludeTree_specOK (glob : Glob) (lists : List PatList) (root : List Node) :
+    specExcludeOK (fun p => !exSelect glob lists p) root (excludeTree glob lists root).1 = true := by
+  unfold specExcludeOK
+  simp only [Bool.and_eq_true, List.all_eq_true, beq_iff_eq, List.contains_iff_mem]
+  constructor
+  · intro e he
+    rw [Bool.eq_iff_iff]
+    simp only [List.contains_iff_mem, Bool.and_eq_true, Bool.not_not, ancestors_all]
+    rw [rewrite_exclude]
+    constructor
+    · rintro ⟨_, h2, h3⟩; exact ⟨h2, h3⟩
+    · rintro ⟨h2, h3⟩; exact ⟨he, h2, h3⟩
+  · intro e he
+    exact ((rewrite_exclude glob lists root e).mp he).1
+
+theorem below_iff (e f : Entry) :
+    (decide (f.path.length > e.path.length) && f.path.take e.path.length == e.path) = true ↔ Below e f := by
+  simp [Below]
+
+/-- the tree computed for include patterns satisfies the executable statement of C27 -/
+theorem includeTree_specOK (glob : Glob) (lists : List PatList) (hv : ValidLists glob lists) (root : List Node) :
+    specIncludeOK (inSelectDir glob lists) root (includeTree glob lists root).1 = true := by
+  unfold specIncludeOK
+  simp only [Bool.and_eq_true, List.all_eq_true, List.contains_iff_mem]
+  constructor
+  · intro e he
+    by_cases hd : e.isDir = true
+    · rw [if_pos hd, beq_iff_eq, Bool.eq_iff_iff]
+      simp only [List.contains_iff_mem, Bool.or_eq_true, List.any_eq_true, below_iff]
+      rw [rewrite_include_dirs glob lists hv root e hd]
+      constructor
+      · rintro ⟨_, h⟩; exact h
+      · intro h; exact ⟨he, h⟩
+    · have hd' : e.isDir = false := by simpa using hd
+      rw [if_neg hd, beq_iff_eq, Bool.eq_iff_iff]
+      simp only [List.contains_iff_mem]
+      rw [rewrite_include_exact glob lists hv root e hd', inSelect_file_eq, inSelectDir_eq]
+      constructor
+      · rintro ⟨_, h⟩; exact h
+      · intro h; exact ⟨he, h⟩
+  · intro e he
+    exact (rewrite_include_sub glob lists root e he).1
+
+/-- MAIN LINK: whatever `runRewrite` saves as the new snapshot satisfies the executable statement
+    of C27 (entries and summary), in exclude mode for every pattern list, in include mode for
+    validated lists. -/
+theorem runRewrite_specOK (glob : Glob) (nEx nIn : Nat) (v : Bool) (ex inc : List PatList)
+    (root t : List Node) (s : Option Stats) (st : Stats)
+    (h : runRewrite glob nEx nIn v ex inc root s = .changed t st) :
+    (inc.length = 0 → specExcludeOK (fun p => !exSelect glob ex p) root t = true) ∧
+    (inc.length > 0 → ValidLists glob inc → specIncludeOK (inSelectDir glob inc) root t = true) ∧
+    specSummaryOK t st = true := by
+  refine ⟨?_, ?_, runRewrite_summary glob nEx nIn v ex inc root t s st h⟩
+  · intro hinc
+    unfold runRewrite at h
+    split at h
+    · cases h
+    · split at h
+      · cases h
+      · split at h
+        · cases h
+        · simp only [hinc, Nat.lt_irrefl, if_false] at h
+          split at h
+          · cases h
+          · rename_i t' st' heq
+            split at h
+            · cases h
+            · simp only [RewriteResult.changed.injEq] at h
+              rcases h with ⟨rfl, rfl⟩
+              unfold rewriteRoot at heq
+              have := excludeTree_specOK glob ex root
+              unfold excludeTree at this
+              generalize rwList (fun p _ => exSelect glob ex p) (fun _ => true) [] root ⟨0, 0⟩ = r at heq this
+              obtain ⟨res, st''⟩ := r
+              simp only at heq this
+              split at heq
+              · cases heq
+              · simp only [Prod.mk.injEq, Option.some.injEq] at heq
+                rw [← heq.1]; exact this
+  · intro hinc hv
+    unfold runRewrite at h
+    split at h
+    · cases h
+    · split at h
+      · cases h
+      · split at h
+        · cases h
+        · simp only [hinc, if_true] at h
+          split at h
+          · cases h
+          · rename_i t' st' heq
+            split at h
+            · cases h
+            · simp only [RewriteResult.changed.injEq] at h
+              rcases h with ⟨rfl, rfl⟩
+              unfold rewriteRoot at heq
+              have := includeTree_specOK glob inc hv root
+              unfold includeTree at this
+              generalize rwList (fun p d => inSelect glob inc p d) (fun p => inSelectDir glob inc p) [] root ⟨0, 0⟩ = r at heq this
+              obtain ⟨res, st''⟩ := r
+              simp only at heq this
+              split at heq
+              · cases heq
+              · simp only [Prod.mk.injEq, Option.some.injEq] at heq
+                rw [← heq.1]; exact this
+
 
 /-! ## tie T1: shape of the transcribed functions -/
 
